@@ -1,5 +1,5 @@
 (* RunContainer.v — marshalling of container states and operations for the extracted model. *)
-From Model Require Export Run Container AFile Fs Access.
+From Model Require Export Run Container AFile GFile Fs Access.
 Open Scope Z_scope.
 
 Definition entry_of_v (v : V) : entry :=
@@ -110,6 +110,8 @@ Definition run_container_acc (arg : V) : V :=
 
 (* compactb of a parsed file (the C09 statement evaluated on the implementation's own output) *)
 Definition run_compactb (arg : V) : V := ok (vbool (compactb (state_of_v arg))).
+(* orderedb of a parsed file: is the file in the class the ordered-file theorems (GFile.v) speak about? *)
+Definition run_orderedb (arg : V) : V := ok (vbool (orderedb (state_of_v arg))).
 
 (* file-system operations (C17): fs = [[path; bytes] ...]
    [fs; 1; path; now] new    [fs; 2; src; dst] copy    [fs; 3; path] open *)
